@@ -193,3 +193,23 @@ Definition spec_diff (c : pcase) : list string :=
 Definition hyps_hold (c : pcase) : bool :=
   wf_nodeb (c_root (pc_cfg c)) && dirs_okb (pc_cfg c).
 Definition exact_and_hyps (c : pcase) : bool := exact_argv c && hyps_hold c.
+
+(* verdict and the differing observables in one number, for reports and minimisation:
+   verdict + 4 * (1 runs | 2 files | 4 includes | 8 go mappings | 16 vtproto mappings
+                  | 32 grpc mappings | 64 plugins)                                            *)
+Definition spec_diff_bits (c : pcase) : nat :=
+  let o := observed c in
+  let s := spec_obs c in
+  (if Nat.eqb (pc_runs c) 1 then 0 else 1)
+  + (if multiset_eqb path_eqb (o_files o) (o_files s) then 0 else 2)
+  + (if multiset_eqb path_eqb (o_incs o) (o_incs s) then 0 else 4)
+  + (if multiset_eqb mapping_eqb (o_go o) (o_go s) then 0 else 8)
+  + (if multiset_eqb mapping_eqb (o_vt o) (o_vt s) then 0 else 16)
+  + (if multiset_eqb mapping_eqb (o_grpc o) (o_grpc s) then 0 else 32)
+  + (if req_eqb (o_req o) (o_req s) then 0 else 64).
+
+Definition proto_judge_sig (c : pcase) : nat :=
+  match proto_judge c with
+  | 0 => 0
+  | k => k + 4 * spec_diff_bits c
+  end.
